@@ -814,21 +814,25 @@ def _compile_config(
         state_configs[s.name] = _compile_state(s, all_states_by_name)
 
     # ⚙️ Merge transitions into state configs
-    trans_by_source_event: Dict[str, Dict[str, List[Transition]]] = (
+    #
+    # 🪪 Keyed by the source State OBJECT, not by its bare name: two states in
+    #    different branches may share a name (`A.idle` / `B.idle`), and a
+    #    name-keyed merge attached `idle_a.to(...)` to BOTH of them.
+    trans_by_source_event: Dict[int, Dict[str, List[Transition]]] = (
         defaultdict(lambda: defaultdict(list))
     )
 
     for t in flat_transitions:
-        trans_by_source_event[t.source.name][t.event].append(t)
+        trans_by_source_event[id(t.source)][t.event].append(t)
 
     def _merge_transitions_into(
-        state_name: str,
+        state: State,
         state_config: Dict[str, Any],
     ) -> None:
-        if state_name in trans_by_source_event:
+        if id(state) in trans_by_source_event:
             if "on" not in state_config:
                 state_config["on"] = {}
-            for event, t_list in trans_by_source_event[state_name].items():
+            for event, t_list in trans_by_source_event[id(state)].items():
                 compiled = []
                 for t in t_list:
                     entry: Dict[str, Any] = {}
@@ -846,12 +850,13 @@ def _compile_config(
                 else:
                     state_config["on"][event] = compiled
         # 📝 Recurse into child states
-        if "states" in state_config:
-            for child_name, child_config in state_config["states"].items():
-                _merge_transitions_into(child_name, child_config)
+        for child in state.states:
+            child_config = state_config.get("states", {}).get(child.name)
+            if child_config is not None:
+                _merge_transitions_into(child, child_config)
 
-    for sname, sconfig in state_configs.items():
-        _merge_transitions_into(sname, sconfig)
+    for s in states:
+        _merge_transitions_into(s, state_configs[s.name])
 
     # ⚙️ Assemble top-level config
     result: Dict[str, Any] = {
